@@ -306,6 +306,24 @@ def increments_by(w, amount):
         return False
 
 
+def store_increment(e):
+    """For an in-place store `row[i] += x` or `row[i] = row[i] + x`: x (else None)."""
+    if e.kind != "store":
+        return None
+    if e.aug == "+":
+        return e.value
+    if e.aug is None:
+        try:
+            d = sym.to_rat(("-", e.value, ("sub", e.base, e.index)))
+        except Exception:
+            return None
+        if any(canon(a) == canon(("sub", e.base, e.index)) for a in d.atoms()):
+            return None
+        if sym.contains(e.value, lambda n: n[0] == "sub" and canon(n) == canon(("sub", e.base, e.index))):
+            return ("rat",) + d.canon()[1:]
+    return None
+
+
 def loop_conditions(e):
     """Conditions under which an event inside a loop body runs, relative to the loop's entry: comprehension filters and inner `if`s alike."""
     if not e.loops:
